@@ -727,7 +727,7 @@ func excludedByFinding(known func(string) bool, path string, args []string) stri
 			return kfMatchInit
 		}
 	}
-	if path == "<file-mt>.__index.setvbuf" && len(args) >= 3 && known(kfSetvbuf) && args[0] == "file" &&
+	if path == "<file-mt>.__index.setvbuf" && len(args) >= 3 && known(kfSetvbuf) && (args[0] == "file" || args[0] == "closed-file") &&
 		(args[1] == "rfmt:full" || args[1] == "rfmt:line") && hugeCountName(args[2]) {
 		return kfSetvbuf
 	}
